@@ -25,6 +25,7 @@ def parseVal (s : String) : Option Val :=
   | 'b' :: r => (bytesOfHex (String.ofList r)).map Val.b
   | 'x' :: r => (bytesOfHex (String.ofList r)).map Val.x
   | ['e'] => some Val.e
+  | 't' :: r => (String.ofList r).toNat?.map Val.t
   | _ => none
 
 def parseVals (s : String) : Option (List Val) := (splitList s).mapM parseVal
@@ -44,6 +45,7 @@ def showVal : Val → String
   | .b bs => "b" ++ hexOrDash bs
   | .x p => "x" ++ hexOrDash p
   | .e => "e"
+  | .t n => s!"t{n}"
 
 def showIo : IoKind → String
   | .unexpectedEof => "eof" | .writeZero => "zero" | .interrupted => "intr"
